@@ -18,6 +18,13 @@
 //             addb    broadcast argument  out = v + z            (z: a TS<Int> bound whole to every child)
 //             pair    two multiplexed dictionaries with differing key sets: out = a[k] + 1000 * b[k]
 //             nest    nested map: elements are TSD<Int,TS<Int>>, the child is map_(inc, element)
+//           reference-routed child outputs (the map element FORWARDS to the child's terminal; binding mode
+//           OutputElementForwardsToChildTerminal) -- the child's output can go from valid to INVALID (empty reference):
+//             evenref   out = if_(v % 2 == 0, v).true         (valid exactly while the key's own element is even)
+//             flagref   out = if_(flag[k], a[k]).true         (two multiplexed dictionaries: a, and per-key flags
+//                                                             fed by `bset <k> <0|1>` / `bdel <k>` as TSD<Int,TS<Bool>>)
+//             bflagref  out = if_(z, a[k]).true               (z: ONE broadcast TS<Bool> fed by `z <0|1>`)
+//             swref     out = switch_(v mod 3, {0: v, 1: v + 1000, 2: a node that never emits})(v)
 //        key: 0 | 1   the function takes the key as first argument `key` (a tag node then maps every child
 //                     graph to its key, so lifecycle/evaluation events are printed per key)
 //        err: 0 | 1   exception_time_series on the map (keyed error capture), errors recorded as TSD<Int,TS<Int>>
@@ -313,6 +320,109 @@ namespace
         }
     };
 
+    // ---- reference-routed child outputs ---------------------------------------------------------------
+    using BoolDict       = TSD<Int, TS<Bool>>;
+    using BP             = Port<TS<Bool>>;
+    using IfIntRefBundle = UnNamedTSB<Field<"true", REF<TS<Int>>>, Field<"false", REF<TS<Int>>>>;
+
+    P route_true(Wiring &w, BP cond, P ts)
+    {
+        auto routed = wire<stdlib::if_, IfIntRefBundle>(w, cond, ts).as<IfIntRefBundle>();
+        return wire<stdlib::getitem_>(w, routed, Str{"true"}).as<TS<Int>>();
+    }
+
+    P even_or_empty(Wiring &w, P ts)
+    {
+        using namespace hgraph::stdlib::syntax;
+        auto even = ((ts % Int{2}) == Int{0}).as<TS<Bool>>();
+        return route_true(w, even, ts);
+    }
+
+    struct GEvenRef
+    {
+        static constexpr auto name = "hgv_g_evenref";
+        static P compose(Wiring &w, P ts) { return even_or_empty(w, ts); }
+    };
+    struct GEvenRefK
+    {
+        static constexpr auto name = "hgv_k_evenref";
+        static P compose(Wiring &w, KP key, P ts)
+        {
+            wire<HTag>(w, key);
+            return even_or_empty(w, ts);
+        }
+    };
+
+    struct GFlagRef
+    {
+        static constexpr auto name = "hgv_g_flagref";
+        static P compose(Wiring &w, P ts, BP flag) { return route_true(w, flag, ts); }
+    };
+    struct GFlagRefK
+    {
+        static constexpr auto name = "hgv_k_flagref";
+        static P compose(Wiring &w, KP key, P ts, BP flag)
+        {
+            wire<HTag>(w, key);
+            return route_true(w, flag, ts);
+        }
+    };
+
+    // switch_-routed output: the selector is the element's own value mod 3; branch 2 never emits (output invalid)
+    struct HMod3
+    {
+        static constexpr auto name = "hgv_mod3";
+        static void eval(In<"ts", TS<Int>> ts, Out<TS<Int>> out) { out.set(((ts.value() % Int{3}) + Int{3}) % Int{3}); }
+    };
+    struct HAdd1000
+    {
+        static constexpr auto name = "hgv_add1000";
+        static void eval(In<"ts", TS<Int>> ts, Out<TS<Int>> out) { out.set(ts.value() + Int{1000}); }
+    };
+    struct GSwPass
+    {
+        static constexpr auto name = "hgv_sw_pass";
+        static P compose(Wiring &, P ts) { return ts; }
+    };
+    struct GSwAdd
+    {
+        static constexpr auto name = "hgv_sw_add";
+        static P compose(Wiring &w, P ts) { return wire<HAdd1000>(w, ts); }
+    };
+    struct HNever
+    {
+        static constexpr auto name = "hgv_never";
+        static void eval(In<"ts", TS<Int>>, Out<TS<Int>>) {}
+    };
+    struct GSwNone
+    {
+        static constexpr auto name = "hgv_sw_none";
+        static P compose(Wiring &w, P ts) { return wire<HNever>(w, ts); }
+    };
+    P switch_routed(Wiring &w, P ts)
+    {
+        auto sel = wire<HMod3>(w, ts);
+        return wire<stdlib::switch_>(w, sel,
+                                     stdlib::switch_cases({{Value{Int{0}}, fn<GSwPass>()}, {Value{Int{1}}, fn<GSwAdd>()},
+                                                           {Value{Int{2}}, fn<GSwNone>()}}),
+                                     ts)
+            .as<TS<Int>>();
+    }
+    struct GSwRef
+    {
+        static constexpr auto name = "hgv_g_swref";
+        static P compose(Wiring &w, P ts) { return switch_routed(w, ts); }
+    };
+    struct GSwRefK
+    {
+        static constexpr auto name = "hgv_k_swref";
+        static P compose(Wiring &w, KP key, P ts)
+        {
+            wire<HTag>(w, key);
+            return switch_routed(w, ts);
+        }
+    };
+
     struct GErrCode
     {
         static constexpr auto name = "hgv_g_err_code";
@@ -329,7 +439,8 @@ namespace
 
     bool fn_known(const std::string &f)
     {
-        static const std::set<std::string> k{"inc", "acc", "addkey", "echo1", "echo2", "echo3", "echov", "even", "neg", "negecho", "addb", "pair", "nest"};
+        static const std::set<std::string> k{"inc", "acc", "addkey", "echo1", "echo2", "echo3", "echov", "even", "neg", "negecho", "addb", "pair", "nest",
+                                           "evenref", "flagref", "bflagref", "swref"};
         return k.count(f) > 0;
     }
 
@@ -527,6 +638,8 @@ namespace
         const bool nested = cfg.fn == "nest";
         const bool bcast  = cfg.fn == "addb";
         const bool two    = cfg.fn == "pair";
+        const bool flags  = cfg.fn == "flagref";     // second multiplexed dictionary: TSD<Int,TS<Bool>> "hgv::f"
+        const bool bflag  = cfg.fn == "bflagref";    // broadcast TS<Bool> "hgv::zf"
         g_graph_key.clear();
 
         Wiring w{WiringKind::TopLevel, WiringOptions{}};
@@ -550,6 +663,16 @@ namespace
                 auto b = wire<stdlib::replay_impl, IntDict>(w, Str{"hgv::b"});
                 m      = wire<stdlib::map_>(w, cfg.key ? fn<GPairK>() : fn<GPair>(), a, b).as<IntDict>();
             }
+            else if (flags)
+            {
+                auto f = wire<stdlib::replay_impl, BoolDict>(w, Str{"hgv::f"});
+                m      = wire<stdlib::map_>(w, cfg.key ? fn<GFlagRefK>() : fn<GFlagRef>(), a, f).as<IntDict>();
+            }
+            else if (bflag)
+            {
+                auto zf = wire<stdlib::replay_impl, TS<Bool>>(w, Str{"hgv::zf"});
+                m       = wire<stdlib::map_>(w, cfg.key ? fn<GFlagRefK>() : fn<GFlagRef>(), a, zf).as<IntDict>();
+            }
             else
             {
                 WiredFn f = cfg.fn == "inc"       ? unary<HInc, 0>(cfg.key)
@@ -561,6 +684,8 @@ namespace
                             : cfg.fn == "even"    ? unary<HEven, 5>(cfg.key)
                             : cfg.fn == "neg"     ? unary<HNeg, 6>(cfg.key)
                             : cfg.fn == "negecho" ? (cfg.key ? fn<GNegEchoK>() : fn<GNegEcho>())
+                            : cfg.fn == "evenref" ? (cfg.key ? fn<GEvenRefK>() : fn<GEvenRef>())
+                            : cfg.fn == "swref"   ? (cfg.key ? fn<GSwRefK>() : fn<GSwRef>())
                                                   : fn<GAddKey>();
                 m = wire<stdlib::map_>(w, f, a).as<IntDict>();
             }
@@ -574,7 +699,7 @@ namespace
         }
         GraphBuilder gb = std::move(w).finish();
 
-        std::vector<std::optional<Value>> a_deltas, b_deltas, z_deltas;
+        std::vector<std::optional<Value>> a_deltas, b_deltas, z_deltas, f_deltas, zf_deltas;
         for (const auto &ops : cycles)
         {
             std::map<Int, Int>                modified, bmodified;
@@ -608,13 +733,26 @@ namespace
                 a_deltas.emplace_back(static_node_detail::build_dict_delta<Int, IntDict>(outer, removed));
             }
             else { a_deltas.emplace_back(static_node_detail::build_dict_delta<Int, TS<Int>>(modified, removed)); }
-            if (!bticked) { b_deltas.emplace_back(std::nullopt); }
-            else { b_deltas.emplace_back(static_node_detail::build_dict_delta<Int, TS<Int>>(bmodified, bremoved)); }
+            if (!bticked)
+            {
+                b_deltas.emplace_back(std::nullopt);
+                f_deltas.emplace_back(std::nullopt);
+            }
+            else
+            {
+                b_deltas.emplace_back(static_node_detail::build_dict_delta<Int, TS<Int>>(bmodified, bremoved));
+                std::map<Int, Bool> fmodified;
+                for (const auto &[k, v] : bmodified) { fmodified[k] = v != Int{0}; }
+                f_deltas.emplace_back(static_node_detail::build_dict_delta<Int, TS<Bool>>(fmodified, bremoved));
+            }
+            zf_deltas.push_back(z.has_value() ? std::optional<Value>{Value{Bool{z->view().checked_as<Int>() != Int{0}}}} : std::nullopt);
             z_deltas.push_back(std::move(z));
         }
         testing::set_replay_deltas(gb.global_state(), "hgv::a", a_deltas);
         if (two) { testing::set_replay_deltas(gb.global_state(), "hgv::b", b_deltas); }
         if (bcast) { testing::set_replay_deltas(gb.global_state(), "hgv::z", z_deltas); }
+        if (flags) { testing::set_replay_deltas(gb.global_state(), "hgv::f", f_deltas); }
+        if (bflag) { testing::set_replay_deltas(gb.global_state(), "hgv::zf", zf_deltas); }
 
         Obs obs;
         obs.nested = nested;
